@@ -79,6 +79,9 @@ def to_classes(spec: dict) -> list[dict]:
         bases = [f"C{j}" for j in c["bases"]] if c.get("bases") else None
         cd = {"name": f"C{i}", "base": f"C{i - 1}" if i else None, "bases": bases, "fields": fields,
               "kw_only": c.get("kw_only", False)}
+        if i == 0 and c.get("mixin"):
+            cd["mixin_fields"] = [{"name": n, "ann": ann_of(kd), "default": PROP_KINDS[kd][1], "flags": {}, "kind": kd}
+                                  for n, kd in c["mixin"]]
         if c.get("redeclare_origin"):
             # a built-in field declared again (new Field object, same name, same place in the field
             # order): it still follows its own skip flag only
@@ -113,6 +116,8 @@ def effective(classes: list[dict], k: int) -> list[dict]:
     (a base contributes its inherited fields too), then the class' own fields; an overriding
     definition keeps the position of the first one."""
     table: dict[str, dict] = {}
+    for f in classes[k].get("mixin_fields", []):  # (fields of a plain dataclass listed after the node base come first)
+        table[f["name"]] = f
     mro = list(reversed(lineage(classes, k)))  # class itself first
     for b in reversed(mro[1:]):
         for f in effective(classes, b):
@@ -154,7 +159,28 @@ def check_class(mod: CF.Module, classes: list[dict], k: int, lab: Labels, first:
     cls = mod.get(f"C{k}")
     eff = effective(classes, k)
     dc_names = [f.name for f in dataclasses.fields(cls)]
-    require(dc_names == [*SYSTEM, *[f["name"] for f in eff]], "harness-field-table", f"{dc_names} vs {[f['name'] for f in eff]}")
+    mixn = [f["name"] for f in classes[0].get("mixin_fields", [])]
+    require(dc_names == [*mixn, *SYSTEM, *[f["name"] for f in eff if f["name"] not in mixn]], "harness-field-table",
+            f"{dc_names} vs {[f['name'] for f in eff]}")
+    lab.tag_if(bool(mixn), "plain-mixin-after-the-node-base")
+
+    def expected_names(flags: tuple) -> list[str]:
+        """declaration order = dataclass field order (the built-in fields stand where they are declared)"""
+        skip_id, skip_origin, skip_cid, skip_nc, skip_ni = flags
+        by = {f["name"]: f for f in eff if f["kind"] in PROP_KINDS}
+        out: list[str] = []
+        for n in dc_names:
+            if n in SYSTEM:
+                if not {"id": skip_id, "content_id": skip_cid, "origin": skip_origin}[n]:
+                    out.append(n)
+            elif n in by:
+                f = by[n]
+                nc = not f["flags"].get("compare", True)
+                ni = not f["flags"].get("init", True)
+                if not ((nc and skip_nc) or (ni and skip_ni)):
+                    out.append(n)
+        return out
+
     fobj = cls.__dataclass_fields__
     props = [f for f in eff if f["kind"] in PROP_KINDS]
     kids = [f for f in eff if f["kind"] not in PROP_KINDS]
@@ -165,19 +191,7 @@ def check_class(mod: CF.Module, classes: list[dict], k: int, lab: Labels, first:
             f"C{k}: {[f.name for f in cf]} expected {[f['name'] for f in kids]}")
     for flags in itertools.product((False, True), repeat=5):
         skip_id, skip_origin, skip_cid, skip_nc, skip_ni = flags
-        exp = []
-        if not skip_id:
-            exp.append("id")
-        if not skip_cid:
-            exp.append("content_id")
-        if not skip_origin:
-            exp.append("origin")
-        for f in props:
-            nc = not f["flags"].get("compare", True)
-            ni = not f["flags"].get("init", True)
-            if (nc and skip_nc) or (ni and skip_ni):
-                continue
-            exp.append(f["name"])
+        exp = expected_names(flags)
         got = list(cls.get_property_fields(skip_id, skip_origin, skip_cid, skip_nc, skip_ni))
         require([g.name for g in got] == exp and all(g is fobj[g.name] for g in got), "get_property_fields",
                 f"C{k} flags(id,origin,content_id,non_compare,non_init)={flags}: {[g.name for g in got]} expected {exp}")
@@ -210,19 +224,7 @@ def check_class(mod: CF.Module, classes: list[dict], k: int, lab: Labels, first:
         for sort_keys in (False, True):
             for flags in itertools.product((False, True), repeat=5):
                 skip_id, skip_origin, skip_cid, skip_nc, skip_ni = flags
-                exp: list = []
-                if not skip_id:
-                    exp.append("id")
-                if not skip_cid:
-                    exp.append("content_id")
-                if not skip_origin:
-                    exp.append("origin")
-                for f in props:
-                    nc = not f["flags"].get("compare", True)
-                    ni = not f["flags"].get("init", True)
-                    if (nc and skip_nc) or (ni and skip_ni):
-                        continue
-                    exp.append(f["name"])
+                exp: list = expected_names(flags)
                 if sort_keys:
                     exp = sorted(exp)
                 got = list(inst.get_properties(skip_id, skip_origin, skip_cid, skip_nc, skip_ni, sort_keys=sort_keys))
@@ -379,7 +381,7 @@ def st_hierarchy(ctx: Ctx):
         return st.tuples(kinds, flags, st.booleans()).map(
             lambda t: {"name": name, "kind": t[0], "init": t[1][0], "compare": t[1][1], "kw_only": t[2] and t[1][0]})
 
-    names = ["a", "b", "c", "d", "e", "f", "zz", "Ab"]
+    names = ["a", "b", "c", "d", "e", "f", "zz", "Ab", "_raw", "_"]  # (underscore-prefixed names are fields like any other)
 
     def level():
         return st.lists(st.sampled_from(names), max_size=5, unique=True).flatmap(
@@ -406,12 +408,17 @@ def st_hierarchy(ctx: Ctx):
         return {"levels": out, "postponed": postponed, "redefine": redefine}
 
     def with_origin(t: tuple) -> dict:
-        d, k = t
+        d, k, mix = t
         if k is not None:
             d["levels"][k % len(d["levels"])]["redeclare_origin"] = True
+        if mix and not d["levels"][0].get("bases"):
+            d["levels"][0]["mixin"] = mix
         return d
 
-    return st.tuples(_base(fix, level), st.one_of(st.none(), st.none(), st.integers(0, 3))).map(with_origin)
+    mixin = st.one_of(st.none(), st.none(), st.none(),
+                      st.lists(st.sampled_from(["int", "str", "bool"]), min_size=1, max_size=2).map(
+                          lambda ks: [[f"m{i}", kd] for i, kd in enumerate(ks)]))
+    return st.tuples(_base(fix, level), st.one_of(st.none(), st.none(), st.integers(0, 3)), mixin).map(with_origin)
 
 
 def _base(fix, level):  # noqa: ANN001
